@@ -212,6 +212,14 @@ def crashChecks (env : Env) (key : Option String) (pre x : View) (offers : List 
       (settledPre || offers.contains n,
         s!"C04: the state on disk belonged to another release (or was unreadable), yet after the process death the next launch of this release selected patch {n} from it") ]
 
+/-- … and when the launch after the death is a launch of ANOTHER release (the app was upgraded in between; the
+    directory was never a state of that release): nothing of the dead process's release may be selected
+    (the conclusion of `crash_then_other_release`). -/
+def upgradeChecks (sel : Option Nat) : Checks :=
+  match sel with
+  | none => []
+  | some n => [(false, s!"C04: after the process death the next launch, a launch of another release, selected patch {n} of the release whose process died")]
+
 /-- The patch whose launch is in progress while `op` runs: the booting marker the call finds —
     except for a launch start (which begins a launch) and a success report (which ends it well). -/
 def inProgressAt (w : World) (op : Op) : Option Nat :=
